@@ -20,6 +20,9 @@ DKS = ('small', 'second')                                   # second = axial on 
 TOL = 1e-9
 TOL_LOCAL = 1e-12
 CONST_DRAW = np.array([0.31, 0.77, 0.52])
+MIN_SIN = 2e-3          # conformations: every anchor triple exactly collinear or sin >= MIN_SIN
+_CONF = {}
+CONF_CLASS = {'genA': 'generic', 'genB': 'generic', 'colz': 'col_z', 'col111': 'col_111'}   # construct: as built
 
 
 def _script(kind, a, k):
@@ -46,7 +49,7 @@ def base_conformation(base, geo, n, seed):
 
 def displaced(pos, axis, j, dk, fn, seed):
     """Conformation with only atom j moved; well conditioned (every anchor triple exactly collinear
-    or sin >= 0.02, atoms distinct) - walks a fixed direction table until it is."""
+    or sin >= MIN_SIN, atoms distinct) - walks a fixed direction table until it is."""
     G = xm.direction_table(seed)
     if dk == 'second' and axis is not None:
         cand = [0.625 * axis, -1.625 * axis, 2.375 * axis]
@@ -56,7 +59,7 @@ def displaced(pos, axis, j, dk, fn, seed):
     for d in cand:
         new = pos.copy()
         new[j] = pos[j] + d
-        if xm.well_conditioned(new, fn):
+        if xm.well_conditioned(new, fn, min_sin=MIN_SIN):
             return new
     raise RuntimeError('displaced: no well conditioned displacement')
 
@@ -71,21 +74,21 @@ class C03(Check):
     technique = ('exhaustive enumeration of bond graphs x geometry classes x targets x scales x conformations x every '
                  'displaced atom on the real ExchangeMap; differential locality oracle, metric oracle from the statement')
     level_text = ('every labelled graph with an anchor on 3..4 (quick) / 3..5 (thorough) atoms in 8 construction geometry '
-                  'classes, 3 targets, 3 scale factors, 5 whole-molecule conformations (incl. two exactly collinear ones) '
+                  'classes, 3 targets, 2-3 scale factors, 5 whole-molecule conformations (incl. two exactly collinear ones) '
                   'and on each every single-atom displacement from 2 classes, every mapped atom, executed on the real code')
     level_note = ('trusted: numpy arithmetic, graph enumerator, in-memory builders, brute-force nearest-anchor assignment and '
                   'the frame-neighbour rule computed from the edge list; not covered: near-collinear conformations '
-                  '(0 < sin < 0.02 at an anchor), displacement vectors outside the table, references above 5 atoms')
-    assumptions = ['conformations are either exactly collinear at an anchor (dyadic coordinates) or have sin >= 0.02 there '
+                  '(0 < sin < 0.002 at an anchor), displacement vectors outside the table, references above 5 atoms')
+    assumptions = ['conformations are either exactly collinear at an anchor (dyadic coordinates) or have sin >= 0.002 there '
                    '(enforced by the builder, deterministic walk of a direction table selected by VERIF_SEED)',
                    'displacement classes: 0.17 nm generic; 1.3 nm generic, or along the axis on exactly collinear conformations',
-                   'scale factors {0.5, 1, 2}']
+                   'scale factors {0.5, 2} (thorough, references up to 4 atoms: also 1)']
 
     def units(self, tier, seed):
         nmax = 5 if tier == 'thorough' else 4
         self.bounds = {'ref_atoms': [3, nmax], 'graphs': {n: len(xm.ref_graphs(n)) for n in range(3, nmax + 1)},
                        'geometry_classes': list(xm.GEO), 'targets': [list(t) for t in TARGETS],
-                       'scale_factors': list(SCALES), 'base_conformations': list(BASES),
+                       'scale_factors': {'quick': [0.5, 2.0], 'thorough': {'n<=4': list(SCALES), 'n=5': [0.5, 2.0]}}[tier], 'base_conformations': list(BASES),
                        'displacement_classes': list(DKS), 'displaced_atoms': 'every atom',
                        'tolerance_nm': TOL, 'locality_tolerance_nm': TOL_LOCAL}
         u = []
@@ -100,8 +103,10 @@ class C03(Check):
         for i, edges in enumerate(xm.ref_graphs(n)):
             if i % unit['mod'] != unit['r']:
                 continue
+            # s = 1 only where it is affordable: thorough tier, references up to 4 atoms
+            scales = SCALES if (tier == 'thorough' and n <= 4) else (0.5, 2.0)
             for ti in range(len(TARGETS)):
-                for s in SCALES:
+                for s in scales:
                     yield {'n': n, 'edges': edges, 'geo': unit['geo'], 't': ti, 's': s}
 
     # ------------------------------------------------------------------
@@ -164,7 +169,7 @@ class C03(Check):
 
         for base in ([case['base']] if 'base' in case else BASES):
             bpos, axis = base_conformation(base, geo, n, seed)
-            sig = f'{geo}/{base}'
+            sig = f'built-{geo}/applied-{CONF_CLASS.get(base, geo)}'
             bdesc = dict(case, base=base)
             want_j = case.get('j', None)
             out0 = apply(bpos, dict(bdesc, j=-1), f'{cls0}/{base}', sig)
@@ -178,7 +183,12 @@ class C03(Check):
             for j in ([want_j] if want_j is not None else range(n)):
                 for dk in ([case['dk']] if 'dk' in case else DKS):
                     cdesc = dict(bdesc, j=j, dk=dk)
-                    conf = displaced(bpos, axis, j, dk, fn, seed)
+                    ckey = (n, str(edges), geo, base, j, dk, seed)
+                    if ckey not in _CONF:
+                        if len(_CONF) > 4096:
+                            _CONF.clear()
+                        _CONF[ckey] = displaced(bpos, axis, j, dk, fn, seed)
+                    conf = _CONF[ckey]
                     out = apply(conf, cdesc, f'{cls0}/{base}/{dk}', sig)
                     if out is None:
                         continue
